@@ -36,8 +36,8 @@ ASSUMPTIONS = [
 EXPECTED_PROBES = ["merge.untouched_checked", "edit.reorder", "input.generated", "expat.split_text_node", "reader.short", "reader.text", "reader.path", "bufsize.1", "dump.splitTables", "dump.splitGlyphs", "newline.crlf", "lossless.tables_checked"]
 
 TIERS = {
-    "quick": {"budget_s": 170, "determinism_sample": 10, "n": {"sweep": 1500}, "minimise_s": 40, "max_minimise": 3},
-    "thorough": {"budget_s": 1700, "determinism_sample": 100, "n": {"sweep": 20000}, "minimise_s": 120, "max_minimise": 6},
+    "quick": {"budget_s": 600, "determinism_sample": 10, "n": {"sweep": 1500}, "minimise_s": 40, "max_minimise": 3},
+    "thorough": {"budget_s": 5400, "determinism_sample": 100, "n": {"sweep": 20000}, "minimise_s": 120, "max_minimise": 6},
 }
 
 
